@@ -103,8 +103,8 @@ fn split_first_meta_var(
   let i = src[skipped..]
     .find(|c: char| !is_valid_meta_var_char(c))
     .unwrap_or(src.len() - skipped);
-  // no name found
-  if i == 0 {
+  // no name found, or a digit-first name: not a meta variable, keep it as literal text
+  if i == 0 || src[skipped..].starts_with(|c: char| c.is_ascii_digit()) {
     return None;
   }
   let name = src[skipped..skipped + i].to_string();
